@@ -177,6 +177,67 @@ theorem thread_isolation (evs : List (Nat × Ev)) (w : World) (c : Nat) :
     · have hc' : ¬ c = ce.1 := fun h => hc h.symm
       simp only [List.filter_cons, hc, decide_false, Bool.false_eq_true, if_false, stepWorld, hc']
 
+/-! ### under `jax.jit`: traces are keyed on the captured configuration -/
+
+/-- every cached trace was made with a configuration that has the key it is stored under -/
+def CacheOK {κ : Type} (keyOf : Cfg → κ) (cache : List (κ × Cfg)) : Prop := ∀ e ∈ cache, e.1 = keyOf e.2
+
+theorem lookup_mem {κ : Type} [DecidableEq κ] (cache : List (κ × Cfg)) (k : κ) (c : Cfg)
+    (h : cache.lookup k = some c) : (k, c) ∈ cache := by
+  induction cache with
+  | nil => simp at h
+  | cons e es ih =>
+    obtain ⟨k', c'⟩ := e
+    simp only [List.lookup_cons] at h
+    by_cases hk : k = k'
+    · subst hk
+      simp at h
+      subst h
+      exact List.mem_cons_self
+    · have : (k == k') = false := by simpa using hk
+      rw [this] at h
+      exact List.mem_cons_of_mem _ (ih h)
+
+theorem applyJit_cacheOK {κ : Type} [DecidableEq κ] (keyOf : Cfg → κ) (cache : List (κ × Cfg)) (c : Cfg)
+    (h : CacheOK keyOf cache) : CacheOK keyOf (applyJit keyOf cache c).1 := by
+  unfold applyJit
+  split
+  · exact h
+  · intro e he
+    rcases List.mem_cons.mp he with rfl | he'
+    · rfl
+    · exact h e he'
+
+/-- **A lazy inverse applied through a jitted function runs with the configuration captured at its creation**,
+whatever other inverses the function has been traced for before — provided the comparison of configurations
+distinguishes them (`keyOf` injective; the implementation's `ConfigState.__eq__` compares all four settings). -/
+theorem jit_uses_creation_config {κ : Type} [DecidableEq κ] (keyOf : Cfg → κ)
+    (hinj : ∀ a b, keyOf a = keyOf b → a = b) (cache : List (κ × Cfg)) (h : CacheOK keyOf cache) (c : Cfg) :
+    (applyJit keyOf cache c).2 = c := by
+  unfold applyJit
+  split
+  · rename_i used hl
+    have := h _ (lookup_mem cache _ _ hl)
+    exact (hinj _ _ this).symm
+  · rfl
+
+/-- … along every sequence of applications, starting from an empty cache -/
+theorem jit_history_uses_creation_configs {κ : Type} [DecidableEq κ] (keyOf : Cfg → κ)
+    (hinj : ∀ a b, keyOf a = keyOf b → a = b) (cs : List Cfg) :
+    ∀ cache, CacheOK keyOf cache → runJit keyOf cache cs = cs := by
+  induction cs with
+  | nil => intro _ _; rfl
+  | cons c cs ih =>
+    intro cache h
+    simp only [runJit]
+    rw [jit_uses_creation_config keyOf hinj cache h c, ih _ (applyJit_cacheOK keyOf cache c h)]
+
+/-- the comparison matters: with a key that forgets one setting (here `solver_options`), the second of two
+inverses differing only in that setting runs with the first one's configuration (kernel-checked witness) -/
+theorem jit_with_forgetful_key_reuses_wrong_trace :
+    runJit (fun c => (c.solver, c.throw, c.callback)) [] [⟨1, 0, 0, 0⟩, ⟨1, 0, 2, 0⟩] ≠ [⟨1, 0, 0, 0⟩, ⟨1, 0, 2, 0⟩] := by
+  decide
+
 /-! non-vacuity: a concrete properly nested history with inheritance, override and exceptional exit -/
 example : WN [.enter { throw := some 1 }, .read, .enter { solver := some 7 }, .mkInverse 1, .exitExc, .read, .exit] := by
   have h1 : WN [Ev.mkInverse 1] := WN.mk [] 1 WN.nil
